@@ -144,14 +144,40 @@ def main(run):
     pp = P.body("uri::scheme::data::DataUrlPartsRef::<'a>::parse")
     if pp is None or not [1 for _, t in P.calls(pp) if mir.callee(t) == PARSE] or not [1 for _, t in P.calls(pp) if (mir.callee(t) or '').endswith('DataUrlDelimiters::into_parts')]:
         run.violation('parts|DataUrlPartsRef::parse', 'DataUrlPartsRef::parse is not into_parts(DataUrlDelimiters::parse(text))')
+    # owned accessors are the stored delimiters' accessors
+    for fn, want in (('uri::scheme::data::DataUrlBuf::media_type', 'uri::scheme::data::DataUrlDelimiters::media_type'), ('uri::scheme::data::DataUrlBuf::encoded_data', 'uri::scheme::data::DataUrlDelimiters::data')):
+        b = P.body(fn)
+        run.count('owned_accessors')
+        if b is None or want not in [mir.callee(t) for _, t in P.calls(b)]:
+            run.violation(f'owned|{fn}', f'{fn} does not read the stored delimiters through {want}')
+    b = P.body('uri::scheme::data::DataUrlBuf::is_base_64_encoded')
+    run.count('owned_accessors')
+    if b is None or terms.Terms(b).ret() != ('field', ('field', ('deref', ('arg', 1)), 1), 1) and 'base_64' not in str(terms.Terms(b).ret()):
+        t = terms.Terms(b).ret() if b else None
+        if not (t and t[0] == 'field' and t[2] == 1 and t[1][0] == 'field' and t[1][2] == 1):
+            run.violation('owned|is_base_64_encoded', f'DataUrlBuf::is_base_64_encoded is not the stored base_64 flag ({str(t)[:80]})')
+    # ---- scanner part (Engine S): the scanners against the documented shape, for all texts
+    from .. import dataurl
+    tot = {'configs': 0, 'transitions': 0, 'returns': 0}
+    for r in dataurl.run(P):
+        run.count('scanner_obligations')
+        for k in tot:
+            tot[k] += r['stats'].get(k, 0)
+        for kind, msg, where, wit in r['findings']:
+            loc = f'{where[1]}:{where[2]} {where[0]}' if where else r['fn']
+            run.violation(f'scan|{r["key"]}|{kind}|{msg[:60]}', f'{loc}: {r["what"]} — {msg}' + (f'; e.g. on {wit!r}' if wit is not None else ''))
+        if not r['findings']:
+            run.sample({'scanner': r['fn'], 'obligation': r['what'], 'abstract_states': r['stats'].get('configs'), 'returns_checked': r['stats'].get('returns'), 'verdict': 'holds'})
+    run.floor('scanner_obligations', 5, 'data-URL scanner obligations')
     run.floor('constructors_ok', 2, 'data URL constructors of the documented shape')
     run.floor('unchecked_ctors', 2, 'unchecked data URL constructors')
-    n = run.cov.get('constructors', 0) + run.cov.get('parts_fns', 0) + run.cov.get('unchecked_ctors', 0)
-    return run.finish('other', {
-        'explanation': 'MIR shape of the two data-URL constructors (validate with Uri/UriBuf::new, then the single DataUrlDelimiters::parse, accept iff Some, store exactly its result), '
-                       'immutability of the owned form, parts() of both forms through the same parse/into_parts pair',
-        'evaluations': n,
-        'distinct_nontrivial': n,
-        'rule': 'one evaluation per constructor / parts function / unchecked constructor',
+    return run.finish('model_checking', {
+        'states': tot['configs'],
+        'transitions': tot['transitions'],
+        'traces_validated_against_impl': 0,
+        'explanation': f'structural: constructors validate with Uri/UriBuf::new then run the single parse and store its result, owned form immutable, parts()/owned accessors through the stored delimiters; '
+                       f'scanners (Engine S, product of the MIR of parse, DataUrlPartsRef::parse and the three re-scanning accessors with the automaton of spec/data-url.abnf): '
+                       f'{run.cov.get("scanner_obligations")} obligations, {tot["returns"]} abstract returns checked, termination (no input-free cycle), no out-of-bounds slice',
         'exhaustive': True,
-    }, assumptions=['the three re-scanning accessors of the borrowed form are NOT covered'])
+    }, assumptions=['a valid URI is ascii (C01), so char iteration is byte iteration', 'str::strip_prefix / char_indices / chars / Iterator::next / slicing / == behave as documented (summaries in iv/strscan.py)',
+                    'base64 decoding (decoded_data) is the base64 crate\'s and is NOT covered', 'traces_validated_against_impl is 0: static analysis only'])
